@@ -1,8 +1,8 @@
 SPECIFICATION MSpec
 CONSTANTS
-  KeySet = {1, 2, 3, 4, 5, 6, 7, 8}
+  KeySet = {1, 2, 3, 4, 5, 6, 7}
   VerSet = {1}
-  PivotSet = {0, 1, 2, 3, 4, 5, 6, 7, 8, 9}
+  PivotSet = {0, 1, 2, 3, 4, 5, 6, 7, 8}
   NSet = {0, 1, 3, 100}
   DegSet = {2}
   MaxH = 1
